@@ -144,8 +144,60 @@ package transform
 //@ end
 
 //@ func ConvertExtendedSpatialIDsToQuadkeysAndVerticalIDs
-//@   props C15 C11
+//@   props C15 C11 C17
 //@   nooverflow
+//@   ensures [err-zoom] !(1 <= outputHZoom && outputHZoom <= 31 && 0 <= outputVZoom && outputVZoom <= 35) ==> r1 != nil && len(r0) == 0
+//@   ensures [err-height-order] maxHeight < minHeight && len(extendedSpatialIDs) > 0 ==> r1 != nil
+//@   ensures [err-malformed] (exists k :: 0 <= k && k < len(extendedSpatialIDs) && !isext(extendedSpatialIDs[k])) ==> r1 != nil
+//@   loop 0 invariant (maxHeight < minHeight ==> $i == 0) && (forall k :: 0 <= k && k < $i ==> isext(extendedSpatialIDs[k]))
+//@   loop 1 invariant len(indexesInt) == $i && (forall k :: 0 <= k && k < $i && k < 6 ==> isnum(fld(spatialID, k)))
+//@ end
+
+//@ -- C17 (ideal reals): the bit index is the cell of the 2^zoom-fold binary subdivision of [minHeight, maxHeight) that
+//@ -- contains the altitude, clamped to the first / last cell outside the range
+//@ func calcBitIndex
+//@   pure
+//@   props C17 C15
+//@   float ideal
+//@   nooverflow
+//@   split outputZoom 0..35
+//@   split i 0..outputZoom
+//@   requires maxHeight > minHeight
+//@   loop 0 invariant 0 <= i && i <= outputZoom && 0 <= bitIndex && bitIndex < pow2(i) && minHeight == old(minHeight) + real(bitIndex) * (old(maxHeight) - old(minHeight)) / rpow2(i) && maxHeight == minHeight + (old(maxHeight) - old(minHeight)) / rpow2(i) && (altitude >= minHeight || bitIndex == 0) && (altitude < maxHeight || bitIndex == pow2(i) - 1)
+//@   ensures [range] 0 <= r0 && r0 < pow2(outputZoom)
+//@   ensures [cell] minHeight <= altitude && altitude < maxHeight ==> minHeight + real(r0) * (maxHeight - minHeight) / rpow2(outputZoom) <= altitude && altitude < minHeight + real(r0 + 1) * (maxHeight - minHeight) / rpow2(outputZoom)
+//@   ensures [clamp-low] altitude < minHeight ==> r0 == 0
+//@   ensures [clamp-high] altitude >= maxHeight ==> r0 == pow2(outputZoom) - 1
+//@ end
+
+//@ lemma C17_bit_index_is_monotone
+//@   props C17
+//@   var a1 real
+//@   var a2 real
+//@   var mx real
+//@   var mn real
+//@   var z int
+//@   split z 0..35
+//@   assume mx > mn && a1 <= a2
+//@   assert [monotone] calcBitIndex(a1, z, mx, mn) <= calcBitIndex(a2, z, mx, mn)
+//@ end
+
+//@ -- C17 (ideal reals): the vertical IDs of a voxel are the contiguous run of cells from the cell of its bottom altitude
+//@ -- f*2^(25-v) to the cell of its top altitude (f+1)*2^(25-v), duplicate-free
+//@ define vbot(f, v) = real(f) * 33554432.0 / rpow2(v)
+//@ func convertVerticallIDToBit
+//@   props C17 C15
+//@   float ideal
+//@   nooverflow
+//@   split vZoom 0..35
+//@   requires 0 <= outputZoom && outputZoom <= 35 && maxHeight > minHeight
+//@   apply C17_bit_index_is_monotone(vbot(vIndex, vZoom), vbot(vIndex + 1, vZoom), maxHeight, minHeight)
+//@   ensures [members-in-run] forall j :: 0 <= j && j < len(r0) ==> calcBitIndex(vbot(vIndex, vZoom), outputZoom, maxHeight, minHeight) <= r0[j] && r0[j] <= calcBitIndex(vbot(vIndex + 1, vZoom), outputZoom, maxHeight, minHeight)
+//@   -- the exact listing: top cell, bottom cell, then the cells in between in ascending order (a contiguous run of top-bottom+1 cells)
+//@   ensures [listing] len(r0) >= 1 && r0[0] == calcBitIndex(vbot(vIndex + 1, vZoom), outputZoom, maxHeight, minHeight) && (calcBitIndex(vbot(vIndex + 1, vZoom), outputZoom, maxHeight, minHeight) == calcBitIndex(vbot(vIndex, vZoom), outputZoom, maxHeight, minHeight) ==> len(r0) == 1) && (calcBitIndex(vbot(vIndex + 1, vZoom), outputZoom, maxHeight, minHeight) != calcBitIndex(vbot(vIndex, vZoom), outputZoom, maxHeight, minHeight) ==> len(r0) == calcBitIndex(vbot(vIndex + 1, vZoom), outputZoom, maxHeight, minHeight) - calcBitIndex(vbot(vIndex, vZoom), outputZoom, maxHeight, minHeight) + 1 && r0[1] == calcBitIndex(vbot(vIndex, vZoom), outputZoom, maxHeight, minHeight) && (forall j :: 2 <= j && j < len(r0) ==> r0[j] == calcBitIndex(vbot(vIndex, vZoom), outputZoom, maxHeight, minHeight) + j - 1))
+//@   ensures [nodup] nodup(r0)
+//@   ensures [in-range] forall k :: 0 <= k && k < len(r0) ==> 0 <= r0[k] && r0[k] < pow2(outputZoom)
+//@   loop 0 invariant minBitIndex + 1 <= i && i <= maxBitIndex && len(bitIndexes) == 1 + i - minBitIndex && bitIndexes[0] == maxBitIndex && bitIndexes[1] == minBitIndex && (forall k :: 2 <= k && k < len(bitIndexes) ==> bitIndexes[k] == minBitIndex + k - 1)
 //@ end
 
 //@ -- C15 / C11 / C17 (error behaviour, no panic, duplicate-freedom): internal keys back to IDs.  The binary-subdivision
